@@ -42,6 +42,10 @@ shrink = cc.shrink
 normalize = cc.normalize
 
 
+def extra_checks(run):
+    return [cc.hook_note()]
+
+
 def oracle_expr(case, mode, obs):
     c = case['cfg']
     if isinstance(obs, int) or obs[0] != 'list':
